@@ -116,6 +116,14 @@ def check(case):
             case.close(H(vec.copy()), want, rtol=1e-8, what='value at a fresh copy of the first vector afterwards')
 
     # a vector of whole numbers typed as integers (int array, list / tuple of Python ints) is the same vector
+    if np.isfinite(want):
+        with case.clause('array_forms'):
+            from vf.core import array_forms
+            for label, arg in array_forms(vec):
+                case.close(H(arg), want, rtol=1e-8, what='hierarchical log-likelihood for the vector given as %s' % label)
+                sc_a, g_a = H.evaluateS1(arg)
+                case.close(sc_a, want, rtol=1e-8, what='evaluateS1 score for the vector given as %s' % label)
+
     # (not with covariates: whole-number coefficients can leave the support)
     if cov is None:
         with case.clause('integer_vector'):
